@@ -1,4 +1,99 @@
 package main
 
-func ruleF4(c *Ctx, id string) {}
-func ruleS3(c *Ctx, id string) {}
+import (
+	"go/token"
+
+	"golang.org/x/tools/go/ssa"
+)
+
+// ruleF4: half-freed objects are finished before reuse or resize.
+func ruleF4(c *Ctx, id string) {
+	V, P, R := c.V, c.P, c.R
+	R.Rule(id, "half-freed objects are finished before reuse or resize: every Inode.Resize acts on an inode known not to be shrinking (obtained through getShrink / getAlloc, or under an explicit !IsShrinking test); AllocInode initialises only a non-shrinking inode; getShrink/getAlloc leave their loop with success only on the !IsShrinking edge", 5)
+	getShrink := c.fn(id, "nfs.(*Nfs).getShrink")
+	getAlloc := c.fn(id, "nfs.(*Nfs).getAlloc")
+	doDec := c.fn(id, "nfs.(*Nfs).doDecLink")
+	if getShrink == nil || getAlloc == nil || doDec == nil || V.Resize == nil || V.IsShrinking == nil {
+		return
+	}
+	notShrinking := func(fn *ssa.Function, at *ssa.BasicBlock, ip ssa.Value) bool {
+		return guardedBy(fn, at, func(cd Cond) (bool, bool) {
+			if cd.Op != token.ILLEGAL {
+				return false, false
+			}
+			sc, ok := cd.X.(*ssa.Call)
+			if ok && sc.Call.StaticCallee() == V.IsShrinking && stripConv(sc.Call.Args[0]) == stripConv(ip) {
+				return true, false
+			}
+			return false, false
+		})
+	}
+	fromHelper := func(ip ssa.Value, helpers ...*ssa.Function) bool {
+		for v := range bwdSources(stripConv(ip)) {
+			if cl, ok := v.(*ssa.Call); ok {
+				for _, h := range helpers {
+					if cl.Call.StaticCallee() == h {
+						return true
+					}
+				}
+			}
+		}
+		return false
+	}
+	// the helpers' own contract: an OK status leaves the loop only through !IsShrinking
+	for _, h := range []*ssa.Function{getShrink, getAlloc} {
+		R.Analysed[FuncName(h)] = true
+		ok := true
+		n := 0
+		for _, oe := range okEdges(h) {
+			n++
+			blk := oe.From
+			// the edge along which OK flows must be (or be dominated by) a !IsShrinking edge
+			dom := false
+			for _, br := range branches(h) {
+				if br.Cond.Op != token.ILLEGAL {
+					continue
+				}
+				sc, isC := br.Cond.X.(*ssa.Call)
+				if !isC || sc.Call.StaticCallee() != V.IsShrinking {
+					continue
+				}
+				if (br.Block == oe.From && br.False == oe.To) || br.False == blk || (len(br.False.Preds) == 1 && br.False.Dominates(blk)) {
+					dom = true
+				}
+			}
+			if !dom {
+				ok = false
+			}
+		}
+		R.Check(ok && n > 0, id, FuncName(h)+"|success only when not shrinking", P.Pos(h.Pos()), "the helper reports NFS3_OK only on the edge where IsShrinking() is false", "every OK source is dominated by the !IsShrinking edge", "the helper can hand back a half-freed inode as ready: the next resize overwrites the shrink marker and the remaining blocks are leaked")
+	}
+	// Resize call sites
+	for _, fn := range P.RepoFuncs("nfs", "dir", "inode", "fstxn", "shrinker") {
+		for _, call := range P.CallsIn(fn, funcIs(V.Resize)) {
+			ip := recvOf(call)
+			R.Analysed[FuncName(fn)] = true
+			if fn == doDec {
+				// obligation moves to doDecLink's callers
+				for _, cs := range P.CallersOf(doDec) {
+					if !IsRepoFunc(cs.Caller) {
+						continue
+					}
+					arg := callCommon(cs.Instr).Args[2]
+					ok := fromHelper(arg, getAlloc) || notShrinking(cs.Caller, cs.Instr.Block(), arg)
+					key := FuncName(cs.Caller) + "|doDecLink -> Resize(0) on a possibly shrinking inode"
+					R.Check(ok, id, key, P.Pos(cs.Instr.Pos()), "the inode unlinked (and truncated to 0) is known not to be in the middle of a background shrink", "inode from getAlloc / under !IsShrinking", "the object was merely looked up: if a background shrink of it is in progress, Resize(0) overwrites ShrinkSize with the small current size and the blocks in between are never freed")
+				}
+				continue
+			}
+			ok := fromHelper(ip, getShrink, getAlloc) || notShrinking(fn, call.Block(), ip)
+			R.Check(ok, id, FuncName(fn)+"|Resize on a non-shrinking inode", P.Pos(call.Pos()), "Resize acts on an inode obtained through getShrink (which finishes a pending shrink first) or under !IsShrinking", "from getShrink / guarded", "Resize on an inode whose background shrink may be in progress")
+		}
+	}
+	// AllocInode
+	if V.AllocInode != nil {
+		for _, call := range P.CallsIn(V.AllocInode, funcIs(V.InitInode)) {
+			R.Check(notShrinking(V.AllocInode, call.Block(), recvOf(call)), id, "fstxn.AllocInode|InitInode only when not shrinking", P.Pos(call.Pos()), "a reused inode number is initialised only after its previous life's blocks are gone", "dominated by !IsShrinking", "a half-freed inode is re-initialised: the blocks of its previous life are leaked")
+		}
+	}
+}
